@@ -172,10 +172,21 @@ def _readable(sock):
 
 
 class _EdgeRandom(random.Random):
-    """Swarm knob 'nonce_edges': message.PayloadNONCE draws its length with randrange(16, 256); return the boundaries often."""
+    """Swarm knobs.  'nonce_edges': message.PayloadNONCE draws its length with randrange(16, 256); return the boundaries often.
+    'pushback_apart': the random push-back after a refused IKE_SA rekey (uniform(0, 2)) is drawn early at one node and late at the
+    other, so that on a symmetric network the two endpoints of a rekey collision provably do not retry in the same loop iteration
+    (a liveness clause can then be judged without a residual probability of a false alarm)."""
+    knobs = {}
+    apart = None
+
+    def uniform(self, a, b):
+        if self.apart is not None and (a, b) == (0, 2):
+            super().uniform(a, b)
+            return self.apart
+        return super().uniform(a, b)
 
     def randrange(self, a, b=None, *rest):
-        if (a, b) == (16, 256) and not rest:
+        if self.knobs.get('nonce_edges') and (a, b) == (16, 256) and not rest:
             x = self.random()
             if x < 0.35:
                 return 16
@@ -327,8 +338,12 @@ class Node:
     def start(self):
         assert self.state in ('down',), self.state
         self.incarnation += 1
-        cls = _EdgeRandom if self.world.scenario.get('knobs', {}).get('nonce_edges') else random.Random
+        knobs = self.world.scenario.get('knobs', {})
+        cls = _EdgeRandom if any(knobs.values()) else random.Random
         self.rnd = cls(f'{self.sys_seed}:{self.name}:{self.incarnation}:rnd')
+        if cls is _EdgeRandom:
+            self.rnd.knobs = knobs
+            self.rnd.apart = (0.3 if self.name == 'A' else 1.7) if knobs.get('pushback_apart') else None
         self.ctr = 0
         self.state = 'running'
         self.death = None
